@@ -33,19 +33,16 @@ def rewritten_dirs(op):
 
 
 def protected(tree, dirs, targets):
+    """the property's wording: durable, not the target, and living in a directory the operation does not rewrite (a directory
+    further up the path may well be rewritten: its entry for the way down has to survive)"""
     out = {}
     for p, t in tree.items():
         if t[0] != "f" or p in targets:
             continue
-        bad = False
-        for d in dirs:
-            pre = d.rstrip("/") + "/"
-            if d == "/" or p.startswith(pre):
-                # the file's path runs through (or the file lives in) a rewritten directory
-                if d == "/" or p[len(pre):] != "" :
-                    bad = True
-        if not bad:
-            out[p] = t
+        own_dir = p.rsplit("/", 1)[0] or "/"
+        if own_dir in [d.rstrip("/") or "/" for d in dirs]:
+            continue
+        out[p] = t
     return out
 
 
@@ -100,13 +97,29 @@ def run(ctx):
                 d = rng.choice(["/keep", "/keep/deep"])
                 size = rng.choice([10, v.bpc, v.bpc + 1, 3 * v.bpc - 1])
                 pre += [["open", f"k{j}", d + "/" + n, "w"], ["write", f"k{j}", bytes(rng.randrange(1, 256) for _ in range(size)).hex()], ["hclose", f"k{j}"]]
+            # a durable file BELOW the directory the work happens in: /work is rewritten by most operations, /work/wrk2 is not
+            pre += [["open", "w2", "/work/wrk2/below.bin", "w"], ["write", "w2", "42" * (v.bpc + 7)], ["hclose", "w2"],
+                    ["open", "w3", "/work/wrk2/a long name below the work directory.txt", "w"], ["write", "w3", "43" * 100], ["hclose", "w3"]]
             # a durable file whose size is an exact multiple of the cluster size, then appended by a few bytes (its last FAT link is
             # the only thing that reaches the device at close)
             pre += [["open", "v", "/keep/V.BIN", "w"], ["write", "v", "56" * (2 * v.bpc)], ["hclose", "v"],
                     ["open", "v2", "/keep/V.BIN", "a"], ["write", "v2", "57" * 10], ["hclose", "v2"]]
             pool = [n for n in gen.name_pool(rng, big=False) if not _hist.quarantined_name(n)]
             work = gen.namespace_program(rng, nops=ctx.scale(10, 24), pool=pool, depth=3)
-            work = [[o[0]] + [("/work" + x if isinstance(x, str) and x.startswith("/") else x) for x in o[1:]] for o in work
+            scripted = []
+            if i % 2 == 0:
+                # a directory with nf one-slot entries, then a long-named sub-directory with a durable file, then the FIRST entry is removed:
+                # the rewrite shifts everything up; nf is chosen around the slot count of a sector so that the long-name set lies
+                # across the sector boundary in the old or the new layout (D35)
+                nf = (v.bps // 32) - 2 + [0, 1, -1, 2, -2][(i // 2) % 5]
+                dn = ["long dir name", "a much longer directory name here", "the directory with a name of fifty characters....x"][(i // 2) % 3]
+                first = ["F00.TXT", "first file with a long name.txt"][(i // 4) % 2]
+                scripted = ([["makedir", "/shift"], ["create", "/shift/" + first]] + [["create", f"/shift/F{q:02d}.TXT"] for q in range(1, nf)] +
+                            [["makedir", "/shift/" + dn], ["open", "sh", f"/shift/{dn}/keep.bin", "w"], ["write", "sh", "53" * 700], ["hclose", "sh"]])
+                pre += scripted
+                work = [["remove", "/shift/" + first]] + work
+            work = [o if (len(o) > 1 and isinstance(o[1], str) and o[1].startswith("/shift")) else
+                    [o[0]] + [("/work" + x if isinstance(x, str) and x.startswith("/") else x) for x in o[1:]] for o in work
                     if o[0] in ("makedir", "create", "open", "write", "hclose", "remove", "removedir", "removetree", "truncate", "seek", "setinfo")]
             ops = pre + work
             case = history.Case(label, img, ops, mount=dict(encoding=enc), meta=meta)
